@@ -40,3 +40,10 @@
 (define-fun enc.z2oOK ((f F32) (fb (_ BitVec 32)) (db (_ BitVec 32)) (B Bytes) (q Idx)) Bool
   (ite (= (spec.numLen (select B q)) #x0000000000000004) (enc.close4 f fb B q)
        (or (fp.eq (spec.z2oV B q) f) (and (= ((_ to_fp 8 24) db) (spec.z2oV B q)) (bvule (spec.absdiff32 db fb) #x00000004)))))
+; operands of one operation of verb v, as the Destination method of that verb takes them (arcs: two radii, rotation,
+; flags, end point): H h V v: 1; L l T t Y y: 2; Q q S s: 4; C c A a: 6; Z: none
+(define-fun enc.nArgsOf ((v (_ BitVec 8))) Idx
+  (ite (or (= v #x48) (= v #x68) (= v #x56) (= v #x76)) #x0000000000000001
+  (ite (or (= v #x4c) (= v #x6c) (= v #x54) (= v #x74) (= v #x59) (= v #x79)) #x0000000000000002
+  (ite (or (= v #x51) (= v #x71) (= v #x53) (= v #x73)) #x0000000000000004
+  (ite (or (= v #x43) (= v #x63) (= v #x41) (= v #x61)) #x0000000000000006 #x0000000000000000)))))
